@@ -36,7 +36,7 @@ theorem initObjectEnv_spec2 (s : St) (o : OId) (li : Nat) (b : EId) (hS : Safe s
   case inv1 =>
     exact ⟨fun (cur, vars) st => ⌜Safe st ∧ Le s st ∧ s.envs.size < st.envs.size ∧
         ∀ v ∈ vars, v.2 < st.thunks.size⌝,
-      fun e st => ⌜Safe st ∧ Good2 e⌝, fun _ => ⌜True⌝, ()⟩
+      fun e st => ⌜Safe st ∧ Good2 e ∧ SzLe s st⌝, fun _ => ⌜True⌝, ()⟩
   all_goals clear h1 h2 h3 h4 h5
   all_goals vcprep2
   all_goals first
@@ -81,6 +81,7 @@ theorem layer_mapThunk_rng {nt ne : Nat} {layer : Layer} {name : String} {t : TI
   · exact ⟨hgr.1, fun u hu => by cases hu; exact ht, hgr.2.2⟩
   · exact hgr
 
+set_option maxHeartbeats 800000 in
 theorem fieldThunk_spec2 (s : St) (o : OId) (start : Nat) (name : String) (hS : Safe s) (ho : o < s.objs.size) :
     ⦃fun st => ⌜st = s⌝⦄ fieldThunk o start name
       ⦃Q2 s (fun r st => ∀ t, r = some t → t < st.thunks.size)⦄ := by
